@@ -202,7 +202,7 @@ def run(ctx):
     ctx.assumptions = ["time/datetime fractions beyond microseconds: py_val may truncate or round (tolerance < 1 us)",
                        "durations: tolerance 2 us because datetime.timedelta rounds its float arguments"]
     n = 3 if ctx.tier == "quick" else 4
-    res = tlc.run("MC_C06", constants={"IdAtomsMax": n}, keep_lines=lambda r: r.get("k") == "case", timeout=7000, heap="12g")
+    res = tlc.run("MC_C06", constants={"IdAtomsMax": n, "OnlyFam": '""'}, keep_lines=lambda r: r.get("k") == "case", timeout=7000, heap="12g")
     ctx.add_tlc(res)
     if res.violation:
         ctx.violation({"kind": "model", "inv": res.violation}, {"tlc": res.raw_tail[-2000:]})
